@@ -2,7 +2,6 @@ package dnsforward
 
 import (
 	"context"
-	"encoding/binary"
 	"net"
 	"net/netip"
 	"strings"
@@ -178,10 +177,12 @@ func (s *Server) processInitial(dctx *dnsContext) (rc resultCode) {
 	}
 
 	// Get the ClientID, if any, before getting client-specific filtering
-	// settings.
-	var key [8]byte
-	binary.BigEndian.PutUint64(key[:], pctx.RequestID)
-	dctx.clientID = string(s.clientIDCache.Get(key[:]))
+	// settings.  Get it from the request itself, like [Server.HandleBefore],
+	// which has made sure that it is valid, does: request numbers, by which
+	// it could be handed over, are only unique within one proxy, and there
+	// may be requests of the previous one still in processing after a
+	// reconfiguration.
+	dctx.clientID, _ = s.clientIDFromDNSContext(pctx)
 
 	// Get the client-specific filtering settings.
 	dctx.protectionEnabled, _ = s.UpdatedProtectionStatus()
